@@ -141,7 +141,12 @@ func (a *LevLPAgent) Step(s *Sim) {
 			}
 			if r.IntN(8) == 0 {
 				// everything but dust: the close ratio rounds to 1 while a remainder stays
-				lp = pos.LeveragedLpAmount.SubRaw(int64(1 + r.IntN(5)))
+				// the remainder ranges from 1 share unit to what is worth about a base unit of the
+				// deposit token (shares have 18 decimals): ratios that round to 1, exits that pay 0
+				dust := sdkmath.NewIntWithDecimal(int64(1+r.IntN(9)), r.IntN(14))
+				if dust.LT(pos.LeveragedLpAmount) {
+					lp = pos.LeveragedLpAmount.Sub(dust)
+				}
 				s.Stats.Probe("levlp_all_but_dust_close_submitted")
 			}
 			s.SendTx(u, "levlp/close", &leveragelptypes.MsgClose{Creator: u.Addr.String(), Id: pos.Id, LpAmount: lp})
